@@ -161,13 +161,14 @@ class Obligation:
         self.text = text
         self.externs = externs
         self.replace = sorted(replace)
-        self.key = hashlib.sha256((text + '|' + ' '.join(self.replace)).encode()).hexdigest()[:24]
+        self.defines = list(getattr(contract, 'defines', []) or [])
+        self.key = hashlib.sha256((text + '|' + ' '.join(self.replace) + '|' + ' '.join(self.defines)).encode()).hexdigest()[:24]
         self.result = None
 
     def ident(self):
         part = getattr(self.contract, 'part', None)
         return '%s %s(%s) [%s]%s' % (self.contract.family, self.fn['name'], ', '.join(p['ctype'] for p in self.fn['params']),
-                                     self.fn.get('owner') or '-', '' if part is None else ' lane-part %d' % part)
+                                     self.fn.get('owner') or '-', '' if part is None else ' part %s' % part)
 
 
 SPEC_INCLUDES = ['spec_int.h', 'spec_float.h']
@@ -237,7 +238,7 @@ def parse_cbmc_json(out):
     return res
 
 
-def discharge(ob_text, cname, replace, workdir, flags, timeout_fast, timeout_slow, loops=False, unwind=None):
+def discharge(ob_text, cname, replace, workdir, flags, timeout_fast, timeout_slow, loops=False, unwind=None, defines=()):
     """run goto-cc / goto-instrument / cbmc on one TU.  returns dict"""
     os.makedirs(workdir, exist_ok=True)
     src = os.path.join(workdir, 'tu.c')
@@ -246,7 +247,7 @@ def discharge(ob_text, cname, replace, workdir, flags, timeout_fast, timeout_slo
     env = dict(os.environ)
     env['TMPDIR'] = workdir
     res = {'verdict': 'undecided', 'reason': None, 'props': [], 'solver_s': 0.0, 'backend': None, 'n_props': 0}
-    rc, out, err, dt = _run(['goto-cc', '-DAVM_CBMC', '-I' + os.path.join(ROOT, 'models'), '-I' + os.path.join(ROOT, 'spec'),
+    rc, out, err, dt = _run(['goto-cc', '-DAVM_CBMC'] + ['-D' + d for d in defines] + [ '-I' + os.path.join(ROOT, 'models'), '-I' + os.path.join(ROOT, 'spec'),
                              src, '-o', os.path.join(workdir, 'a.gb')], workdir, 120, env)
     if rc != 0:
         res['reason'] = 'goto-cc failed: ' + (err or out)[-1500:]
@@ -266,8 +267,8 @@ def discharge(ob_text, cname, replace, workdir, flags, timeout_fast, timeout_slo
         base += ['--unwind', str(unwind), '--unwinding-assertions']
     # cadical (linked into cbmc, no CNF file) is the deciding back end; kissat is the fall-back for slow queries.
     # minisat is not used: it cannot match even identical multiplier circuits through SSA copies.
-    attempts = [('cadical', ['--sat-solver', 'cadical'], timeout_fast if 'mul' not in flags else timeout_slow)]
-    if 'mul' not in flags:
+    attempts = [('cadical', ['--sat-solver', 'cadical'], timeout_fast if ('mul' not in flags and 'div' not in flags) else timeout_slow)]
+    if 'mul' not in flags and 'div' not in flags:
         attempts.append(('kissat', ['--external-sat-solver', 'kissat'], timeout_slow))
     for name, extra, to in attempts:
         rc, out, err, dt = _run(base + extra, workdir, to, env, mem_gb=12)
@@ -298,8 +299,8 @@ def discharge(ob_text, cname, replace, workdir, flags, timeout_fast, timeout_slo
 
 
 def _worker(args):
-    key, text, cname, replace, workdir, flags, tf, ts, loops, unwind = args
-    r = discharge(text, cname, replace, workdir, flags, tf, ts, loops, unwind)
+    key, text, cname, replace, workdir, flags, tf, ts, loops, unwind, defines = args
+    r = discharge(text, cname, replace, workdir, flags, tf, ts, loops, unwind, defines)
     # traces can be large: keep only the failing properties' traces, trimmed to harness-level assignments
     for p in r['props']:
         if 'trace' in p:
@@ -335,7 +336,7 @@ def extract_inputs(trace):
         lhs = st.get('lhs', '')
         if st.get('sourceLocation', {}).get('function') not in ('main', None) and not lhs.startswith('__CPROVER_rounding_mode'):
             continue
-        m = re.match(r'^(a\d+(_obj)?|self_obj|__CPROVER_rounding_mode|init|idx_in|len_in|n_in)(\W.*)?$', lhs)
+        m = re.match(r'^(a\d+(_obj)?|self_obj|rm_in|init|idx_in|len_in|n_in)(\W.*)?$', lhs)
         if m:
             vals.setdefault(m.group(1), {})[lhs] = _val(st.get('value'))
     return vals
@@ -360,7 +361,7 @@ def run_obligations(obs, scratch, tier, progress=True):
     for ob in obs:
         c = ob.contract
         wd = scratch.path('ob-' + ob.key)
-        jobs.append((ob.key, ob.text, ob.cname, ob.replace, wd, c.flags, tf, ts, bool(c.loops), getattr(c, 'unwind', None)))
+        jobs.append((ob.key, ob.text, ob.cname, ob.replace, wd, c.flags, tf, ts, bool(c.loops), getattr(c, 'unwind', None), ob.defines))
     bykey = {ob.key: ob for ob in obs}
     done = 0
     t0 = time.time()
